@@ -2,15 +2,20 @@ import SLModel.Core.Doc
 /-!
 # Core/DocValidate — what `add_document` accepts and what `commit` needs (C15)
 
-Import-free apart from `Core/Doc`, executable, structurally recursive.
+Import-free apart from `Core/Doc`, executable, structurally recursive.  This is the code **after**
+the repairs 37df93e (unknown top-level names rejected when queued), 919e2f9 (an array directly
+inside a nested array rejected when queued) and 6d0f8bf (values of nested leaf properties
+type-checked like top-level fields); the add-time validation as it was before them is kept in
+`Core/DocValidateLegacy`.
 
 * `validateAdd` mirrors `Schema::validate_document` (`index/manifest.rs`): the id test, then for
   every top-level entry *in this order*: a nested field of that name → `NestedField::validate`;
-  otherwise a flat field of that name → `validate_field_value`; otherwise **nothing** (unknown
-  names are ignored).  `NestedField::validate` recurses into arrays with the *same* field
-  (arrays of arrays pass), checks every entry of an object with `NestedProperty::validate_value`
-  (leaf: null only if nullable, otherwise string|array resp. number|array — array elements are
-  not looked at; object: null only if nullable, otherwise recursive) and then the presence of the
+  otherwise a flat field of that name → `validate_field_value`; otherwise the id field → nothing;
+  otherwise `bail!("unknown field")`.  `NestedField::validate`: null only if nullable; an array
+  → every element is validated against the same field, an element that is itself an array is
+  refused; an object → every entry by `NestedProperty::validate_value` (leaf: the same test as a
+  top-level field of that kind — null only if nullable, a scalar of the kind or an array of such
+  scalars; object: null only if nullable, otherwise recursive), then the presence of the
   non-nullable properties.
 * `collectDoc` mirrors the `bail!` sites of `collect_document`/`collect_nested`/
   `collect_nested_object` (`index/segment.rs`): unknown top-level name, null where not nullable,
@@ -30,6 +35,10 @@ namespace SL.Doc
 
 variable {σ : Type}
 
+def J.isArr : J σ → Bool
+  | .arr _ => true
+  | _ => false
+
 /-! ## add time -/
 
 /-- `doc.fields.get(id).and_then(as_str).map(trim).filter(!is_empty)`; `blank` = "trims to
@@ -46,21 +55,25 @@ def nestedValid [DecidableEq σ] (n : Nested σ) : J σ → Bool
   | .arr a => elemsValid n a
   | .obj kv => entriesValid n.props kv && requiredPresent kv n.props
   | _ => false
-/-- the array case: every element is validated against the same field -/
+/-- the array case: an element that is an array is refused, every other element is validated
+against the same field -/
 def elemsValid [DecidableEq σ] (n : Nested σ) : JL σ → Bool
   | .nil => true
-  | .cons h t => nestedValid n h && elemsValid n t
-/-- the entry loop of the object case (`NestedProperty::validate_value`) -/
+  | .cons h t =>
+    (!h.isArr && nestedValid n h) && elemsValid n t
+/-- the entry loop of the object case (`NestedProperty::validate_value`): leaves are tested like
+top-level fields (`flatOk`) -/
 def entriesValid [DecidableEq σ] (props : NProps σ) : JO σ → Bool
   | .nil => true
   | .cons k v t =>
     (match props.find k with
-     | some (.leaf l) => leafPropOk l v
+     | some (.leaf l) => flatOk l v
      | some (.object child) => if v.isNull then child.nullable else nestedValid child v
      | none => false) && entriesValid props t
 end
 
-/-- the entry loop of `validate_document`: nested name first, then flat name, else ignored -/
+/-- the entry loop of `validate_document`: nested name first, then flat name, then the id field,
+else `bail!("unknown field")` -/
 def fieldsValid [DecidableEq σ] (s : Schema σ) : JO σ → Bool
   | .nil => true
   | .cons k v t =>
@@ -69,7 +82,7 @@ def fieldsValid [DecidableEq σ] (s : Schema σ) : JO σ → Bool
      | none =>
        match s.findFlat k with
        | some l => flatOk l v
-       | none => true) && fieldsValid s t
+       | none => decide (k = s.idField)) && fieldsValid s t
 
 /-- `IndexWriter::add_document` returns `Ok` (the log append cannot fail on content) -/
 def validateAdd [DecidableEq σ] (blank : σ → Bool) (s : Schema σ) : J σ → Bool
@@ -126,49 +139,6 @@ def collectOk [DecidableEq σ] (blank : σ → Bool) (size : J σ → Nat) (cap 
     (d : J σ) : Bool :=
   validateAdd blank s d && collectDoc s d && decide (size (project s d) ≤ cap)
 
-/-! ## the classes of documents on which add time and commit time differ -/
-
-/-- a top-level name that is neither the id, nor a flat field, nor a nested field -/
-def unknownTop [DecidableEq σ] (s : Schema σ) : JO σ → Bool
-  | .nil => false
-  | .cons k _ t =>
-    (!(decide (k = s.idField)) && (s.findFlat k).isNone && (s.findNested k).isNone) ||
-      unknownTop s t
-
-mutual
-/-- a nested value (below field `n`) contains an array directly inside an array -/
-def arrInArr [DecidableEq σ] (n : Nested σ) : J σ → Bool
-  | .arr a => arrInArrElems n a
-  | .obj kv => arrInArrEntries n.props kv
-  | _ => false
-def arrInArrElems [DecidableEq σ] (n : Nested σ) : JL σ → Bool
-  | .nil => false
-  | .cons h t =>
-    (match h with
-     | .arr _ => true
-     | .obj kv => arrInArrEntries n.props kv
-     | _ => false) || arrInArrElems n t
-def arrInArrEntries [DecidableEq σ] (props : NProps σ) : JO σ → Bool
-  | .nil => false
-  | .cons k v t =>
-    (match props.find k with
-     | some (.object child) => arrInArr child v
-     | _ => false) || arrInArrEntries props t
-end
-
-def arrInArrTop [DecidableEq σ] (s : Schema σ) : JO σ → Bool
-  | .nil => false
-  | .cons k v t =>
-    (match s.findNested k with
-     | some n => arrInArr n v
-     | none => false) || arrInArrTop s t
-
-/-- the hypothesis of the partial theorem: none of the three defect classes -/
-def benign [DecidableEq σ] (size : J σ → Nat) (cap : Nat) (s : Schema σ) (d : J σ) : Bool :=
-  match d with
-  | .obj kv => !unknownTop s kv && !arrInArrTop s kv && decide (size (project s d) ≤ cap)
-  | _ => true
-
 /-! ## the documented rules: strict conformance -/
 
 /-- a leaf value: null if nullable, a scalar of the kind, or an array of such scalars -/
@@ -210,37 +180,6 @@ def fieldsStrict [DecidableEq σ] (s : Schema σ) : JO σ → Bool
 def conforms [DecidableEq σ] (blank : σ → Bool) (s : Schema σ) : J σ → Bool
   | .obj kv => idOk blank s kv && fieldsStrict s kv
   | _ => false
-
-/-! ## typed leaves inside nested values (what add time does not look at) -/
-
-mutual
-/-- every leaf value inside the nested value is typed as the documentation demands (what
-`NestedProperty::validate_value` does not check: elements of arrays, integrality of i64) -/
-def leavesTyped [DecidableEq σ] (n : Nested σ) : J σ → Bool
-  | .arr a => leavesTypedElems n a
-  | .obj kv => leavesTypedEntries n.props kv
-  | _ => true
-def leavesTypedElems [DecidableEq σ] (n : Nested σ) : JL σ → Bool
-  | .nil => true
-  | .cons h t =>
-    (match h with
-     | .obj kv => leavesTypedEntries n.props kv
-     | _ => true) && leavesTypedElems n t
-def leavesTypedEntries [DecidableEq σ] (props : NProps σ) : JO σ → Bool
-  | .nil => true
-  | .cons k v t =>
-    (match props.find k with
-     | some (.leaf l) => leafStrict l v
-     | some (.object child) => leavesTyped child v
-     | none => true) && leavesTypedEntries props t
-end
-
-def leavesTypedTop [DecidableEq σ] (s : Schema σ) : JO σ → Bool
-  | .nil => true
-  | .cons k v t =>
-    (match s.findNested k with
-     | some n => leavesTyped n v
-     | none => true) && leavesTypedTop s t
 
 /-- no nested field is called like the id field (then the id entry itself is validated as a
 nested value and nothing can be added at all) -/
